@@ -147,3 +147,56 @@ Proof.
   intros ds Hin; cbn [In] in Hin.
   repeat (destruct Hin as [<- | Hin]; [vm_compute; reflexivity|]). destruct Hin.
 Qed.
+
+(* ---- completeness: there is no other path ----
+   Every list of decisions long enough to reach the end of any path through the skeleton (8 for Serve, 6 for the
+   goroutine, 4 for Shutdown; a path that ran out of decisions would end in a "no-decision-left" token and be in
+   none of the lists below) yields one of the model's traces: the paths compared above are all the paths there are. *)
+Definition serve_traces : list (list string) :=
+  [ ["return:errors.New(""radius: nil Handler"")"];
+    ["return:errors.New(""radius: nil SecretSource"")"];
+    mtrace (two (set_shut init true)) (runs 0 2 true);
+    mtrace (two init) (runs 0 5 true ++ [(0, ARead_error false, true)] ++ runs 0 3 true);
+    mtrace (two init) (runs 0 5 true ++ [(0, ARead_error true, true)]);
+    mtrace (two init) (runs 0 5 true ++ runs 1 7 false ++ [(0, ARead_error false, true)] ++ runs 0 3 true);
+    mtrace (two init) (runs 0 5 true ++ [(0, ARead_datagram false, true)]) ].
+Definition dgram_traces : list (list string) :=
+  [ mtrace (two init) (runs 0 5 false ++ [(0, ARead_datagram false, false); (2, ARun, true); (2, AHandler_return, true); (2, ARun, true)]);
+    dropped_trace ].
+Definition shutdown_traces : list (list string) :=
+  let first := runs 0 5 false ++ runs 1 7 true in
+  [ mtrace (two init) (first ++ [(0, ARead_error false, false)] ++ runs 0 3 false ++ [(1, AWake_nil, true)]);
+    mtrace (two init) (first ++ [(1, AExpire, true); (1, AWake_err, true)]);
+    mtrace (two init) first;                              (* still waiting in its select *)
+    mtrace drained (runs 2 4 true ++ [(2, AWake_nil, true)]);
+    mtrace (add_thread serving_shut (TShut H_start false)) (runs 2 4 true ++ [(2, AExpire, true); (2, AWake_err, true)]);
+    mtrace drained (runs 2 4 true) ].
+
+Definition code_paths_complete : Prop :=
+  (forall ds, List.length ds = 8 -> In (path ds Sync_PacketServer_Serve) serve_traces) /\
+  (forall ds, List.length ds = 6 -> In (path ds (go_block Sync_PacketServer_Serve)) dgram_traces) /\
+  (forall ds, List.length ds = 4 -> In (path ds Sync_PacketServer_Shutdown) shutdown_traces).
+
+Lemma code_paths_complete_holds : code_paths_complete.
+Proof.
+  unfold code_paths_complete, path; repeat split; intros ds Hlen;
+    (apply paths_within_spec with (n := List.length ds); [rewrite Hlen; vm_compute; reflexivity | apply all_lists_complete; reflexivity]).
+Qed.
+
+(* ---- the lockset discipline of the code as written, on every path ---- *)
+Definition code_lockset : Prop :=
+  (forall ds, List.length ds = 8 -> lockset false false (rawpath ds Sync_PacketServer_Serve) = true) /\
+  (forall ds, List.length ds = 6 -> lockset false false (rawpath ds (go_block Sync_PacketServer_Serve)) = true) /\
+  (forall ds, List.length ds = 4 -> lockset false false (rawpath ds Sync_PacketServer_Shutdown) = true) /\
+  (* activeAdd / activeDone touch nothing but the atomic counter and the channel they close *)
+  existsb touches_server (Sync_PacketServer_activeAdd ++ Sync_PacketServer_activeDone) = false /\
+  (* the walk does see the operations it is about (the check is not vacuous) *)
+  existsb touches_server (rawpath [F;F;F;T;F;T;F] Sync_PacketServer_Serve) = true /\
+  existsb touches_table (rawpath [F;F;F;F;F;F] (go_block Sync_PacketServer_Serve)) = true.
+
+Lemma code_lockset_holds : code_lockset.
+Proof.
+  unfold code_lockset; repeat split;
+    try (intros ds Hlen; apply lockset_within_spec with (n := List.length ds); [rewrite Hlen; vm_compute; reflexivity | reflexivity]);
+    vm_compute; reflexivity.
+Qed.
